@@ -63,7 +63,8 @@ class SchedulerQueue:
     def peek_last_event_dt(self) -> Optional[datetime.datetime]:
         ret = None
         if self._queue:
-            ret = self._queue[-1].when
+            # The queue is a heap, so the last item is not necessarily the one with the latest datetime.
+            ret = max(self._queue).when
         return ret
 
     def pop(self) -> Tuple[datetime.datetime, SchedulerJob]:
